@@ -331,6 +331,21 @@ namespace
         bool operator==(const ILInt &o) const { return v == o.v; }
         bool operator!=(const ILInt &o) const { return v != o.v; }
     };
+    // an element that points into itself (a record with a cursor into its own inline array): trivial destructor, real copy
+    // constructor. A stored element whose cursor does not aim at its own array compares unequal to everything.
+    struct CursorRec
+    {
+        int cells[2] = {0, 0};
+        const int *cur = cells;
+        CursorRec() {}
+        CursorRec(long long x) { cells[0] = (int)x; cells[1] = (int)(x >> 8); cur = cells + (x & 1); }
+        CursorRec(const CursorRec &o) { cells[0] = o.cells[0]; cells[1] = o.cells[1]; cur = cells + (o.cur - o.cells); }
+        CursorRec &operator=(const CursorRec &o) { cells[0] = o.cells[0]; cells[1] = o.cells[1]; cur = cells + (o.cur - o.cells); return *this; }
+        bool sane() const { return cur == cells || cur == cells + 1; }
+        bool operator==(const CursorRec &o) const { return sane() && o.sane() && cells[0] == o.cells[0] && cells[1] == o.cells[1] && (cur - cells) == (o.cur - o.cells); }
+        bool operator!=(const CursorRec &o) const { return !(*this == o); }
+    };
+    static_assert(std::is_trivially_destructible<CursorRec>::value && !std::is_trivially_copyable<CursorRec>::value, "CursorRec: trivial destructor, real copy");
     // ---------------------------------------------------------------- a ring with more than 65535 slots (C API)
     // blocks of tens of thousands of bytes written, read and moved in bulk across the wrap, against a std::deque
     struct HugeRingWorld : World
@@ -1040,12 +1055,13 @@ int main(int argc, char **argv)
     TypedRingWorld<int> ti(false, "igris::ring<int>");
     TypedRingWorld<FInt> tf(false, "igris::ring<throwing element>");
     TypedRingWorld<ILInt> til(false, "igris::ring<element with an initializer-list constructor>");
+    TypedRingWorld<CursorRec> tcr(false, "igris::ring<element pointing into itself>");
     CyclicWorld cy;
     Harness h;
     h.property = "C03";
     HugeRingWorld hw;
     static StringQueueWorld sq;
-    h.worlds = {&cw, &tc, &ti, &cy, &tf, &hw, &sq, &til};
+    h.worlds = {&cw, &tc, &ti, &cy, &tf, &hw, &sq, &til, &tcr};
     h.real = {"igris/datastruct/ring.h", "igris/container/ring.h", "igris/datastruct/ring_counter.h", "igris/container/cyclic_buffer.h",
               "igris/container/unbounded_array.h"};
     h.stub = {"producer / consumer / DMA tasks with stalls (op-level interleaving from the plan)", "SimAlloc memory behind the Alloc parameter and the C ring's buffer",
